@@ -144,6 +144,11 @@ func (s *heapSubj[T]) GenOp(r *Rng, id int, c *Client) Op {
 	return Op{ID: id, N: "Clear"}
 }
 
+// sortIdx sorts table indices by the run's comparator (stable).
+func (s *heapSubj[T]) sortIdx(idx []int) {
+	slices.SortStableFunc(idx, func(a, b int) int { return s.d.Cmp(s.d.At(a), s.d.At(b)) })
+}
+
 func (s *heapSubj[T]) minIndex() int {
 	best := -1
 	for i, x := range s.m {
@@ -295,6 +300,10 @@ func (s *heapSubj[T]) check(o *Oracle) {
 	}
 	if len(o.Active) == 0 {
 		return // C18 write phases: no observer may run on the container (it would warm lazily built state)
+	}
+	if derive(o.cur.ID, 91, 2) == 1 && o.On("C06") { // (observer order varies, see listSubj.check)
+		v, ok := s.c.Peek()
+		s.judgeMin(o, "Peek (asked before Values())", v, ok)
 	}
 	vals := s.c.Values()
 	if o.On("C06") || o.On("C16") {
